@@ -153,6 +153,13 @@ class Tr:
                 return self.expr(ast.Attribute(value=e.args[0], attr=e.args[1].value))
             if isinstance(f, ast.Name) and f.id == "isinstance":
                 return "true"       # typing assumption
+            # obj.__eq__(other) and friends: a call of another translated comparison method (already emitted above)
+            if (isinstance(f, ast.Attribute) and isinstance(f.value, ast.Name) and f.value.id in self.objs and f.attr in CMP_CALLS
+                    and len(e.args) == 1 and not e.keywords and isinstance(e.args[0], ast.Name) and e.args[0].id in self.objs):
+                self.nfresh += 1
+                v = "c%d_%s" % (self.nfresh, CMP_CALLS[f.attr])
+                self.pending.append((v, "(gen_%s_%s %s %s)" % (self.fam, CMP_CALLS[f.attr], f.value.id, e.args[0].id)))
+                return v
             raise Unsupported("call " + ast.dump(f))
         raise Unsupported("expression " + type(e).__name__)
 
@@ -418,6 +425,8 @@ def module_consts(tree):
     return consts
 
 
+CMP_CALLS = {"__eq__": "eq", "__contains__": "contains"}   # callable from later methods (emitted earlier)
+
 # (python name, gallina suffix, kind) ; kind: prop = derived property (self) -> Z,
 # cmp = (self, val objects) -> bool, arith = (self, val int) -> ipo, setter = (self, arg int) -> ipo
 METHODS = [
@@ -431,6 +440,7 @@ METHODS = [
     ("network_offset", "set_network_offset", "setter"),
     ("__contains__", "contains", "cmp"),
     ("__eq__", "eq", "cmp"),
+    ("__ne__", "ne", "cmp"),
     ("__lt__", "lt", "cmp"),
     ("__gt__", "gt", "cmp"),
     ("__add__", "add", "arith"),
